@@ -665,7 +665,22 @@ Definition compile_root (root : json) : res compiled :=
 
 Definition default_fuel : nat := 64.
 
-Definition validate_data_fuel (fuel : nat) (data schema : option json) : res unit :=
+(* nesting depth of an instance *)
+Fixpoint jdepth (j : json) {struct j} : nat :=
+  match j with
+  | JArr l => Datatypes.S (fold_right (fun x acc => Nat.max (jdepth x) acc) O l)
+  | JObj o => Datatypes.S (fold_right (fun kv acc => Nat.max (jdepth (snd kv)) acc) O o)
+  | _ => O
+  end.
+
+(* fuel given to a run: between two descents into the instance at most one $ref per
+   target can be followed (compile_root rejects in-place cycles), so
+   (depth + 1) * (targets + 1) is enough; `schema-loop` below is then unreachable
+   in practice (not proved; the proved statements hold for every fuel) *)
+Definition fuel_for (c : compiled) (j : json) : nat :=
+  (jdepth j + 1) * (List.length (c_env c) + 1).
+
+Definition validate_data_with (fuel_of : compiled -> json -> nat) (data schema : option json) : res unit :=
   match schema with
   | None => Err "schema-json"
   | Some sj =>
@@ -674,7 +689,7 @@ Definition validate_data_fuel (fuel : nat) (data schema : option json) : res uni
       | Some (JObj o) =>
           match compile_root sj with
           | Ok c =>
-              match validate (c_env c) fuel (c_root c) (JObj o) with
+              match validate (c_env c) (fuel_of c (JObj o)) (c_root c) (JObj o) with
               | Some true => Ok tt
               | Some false => Err "invalid"
               | None => Err "schema-loop"
@@ -685,7 +700,8 @@ Definition validate_data_fuel (fuel : nat) (data schema : option json) : res uni
       | Some _ => Err "data-type"
       end
   end.
-Definition validate_data := validate_data_fuel default_fuel.
+Definition validate_data_fuel (fuel : nat) := validate_data_with (fun _ _ => fuel).
+Definition validate_data := validate_data_with fuel_for.
 
 (* /repo/processor/processor.go: Processor.ValidateData delegates to the
    configured validator, or fails when none is configured *)
